@@ -3,7 +3,7 @@ import json
 import subprocess
 from concurrent.futures import ThreadPoolExecutor
 
-ROOTS = ["0,0", "1,4", "2,4", "2,1", "3,4", "3,1", "4,4", "5,4", "6,4", "7,0", "8,0", "9,4", "9,1", "10,4", "10,1", "11,4", "12,4", "13,4", "14,4", "15,126", "16,127", "17,4", "18,4", "11,1024", "19,4"]
+ROOTS = ["0,0", "1,4", "2,4", "2,1", "3,4", "3,1", "4,4", "5,4", "6,4", "7,0", "8,0", "9,4", "9,1", "10,4", "10,1", "11,4", "12,4", "13,4", "14,4", "15,126", "16,127", "17,4", "18,4", "11,1024", "19,4", "20,4", "21,4", "22,1024", "23,4"]
 CONFIGS = [(f, p, par) for f in ("std", "nostd", "extra") for p in ("rel", "dbg") for par in ("even", "odd")]
 
 
